@@ -14,6 +14,9 @@ func init() {
 			ruleAssignToken(c, "C01.5")
 			rulePairedEdges(c, "C01.6")
 			rulePoolsProcessed(c, "C01.6")
+			ruleFieldAccessSync(c, "C01.7")
+			ruleSnapshotReadOnly(c, "C01.4")
+			ruleGuardReceivers(c, "C01.3")
 			ruleNoEarlyExit(c, "C01.7", "(*InjectorProviderCallStmt).generateChannelWaitStatement", "(*InjectorProviderCallStmt).buildArguments", "(*Graph).buildPoolStmtsSimple")
 			coRun(c, "C01.8", coRace)
 		},
@@ -34,6 +37,9 @@ func init() {
 			rulePoolsProcessed(c, "C03.7")
 			rulePairedEdges(c, "C03.7")
 			ruleRefTable(c, "C03.1")
+			ruleGuardReceivers(c, "C03.1")
+			ruleChainOnlyWraps(c, "C03.5")
+			ruleFieldAccessSync(c, "C03.7")
 			coRun(c, "C03.6", coTermination)
 		},
 		explanation: "GS: every producer kind closes exactly the channels the var block declares (one predicate, loops without early exit, hence one close per barrier); the emitted list is all eg.Go chains followed by the main thread, so no main-thread wait can precede a spawn; eg.Wait is appended before the normal return under the same predicate that declares the group; a chain is a single eg.Go(func() error {...; return nil}); a pool is a goroutine exactly when its first provider is Async, at every decision site; every built pool unblocks its dependants. " +
@@ -46,6 +52,7 @@ func init() {
 		run: func(c *Ctx) {
 			ruleSpawnFirst(c, "C05.1")
 			ruleChainWrapped(c, "C05.2")
+			ruleChainOnlyWraps(c, "C05.2")
 			ruleChannelGuards(c, "C05.3")
 			ruleNoEarlyExit(c, "C05.3", "(*InjectorProviderCallStmt).generateChannelWaitStatement")
 			rulePoolPredicate(c, "C05.1")
@@ -67,6 +74,10 @@ func init() {
 			ruleIsWaitTable(c, "C06.5")
 			ruleRefTable(c, "C06.5")
 			ruleChannelGuards(c, "C06.5")
+			ruleFieldAccessSync(c, "C06.5")
+			ruleSnapshotReadOnly(c, "C06.5")
+			ruleTypeIdentity(c, "C06.6", genPkg)
+			ruleErrorCheckTemplates(c, "C06.7")
 			coRun(c, "C06.4", coErrors)
 		},
 		explanation: "GS: the error check is appended after the call and before the close (a failed provider never releases its dependants); a fallible call always gets a returning handler (handler is nil only when the injector has no error result, and the injector has one whenever a scheduled provider is fallible); classification of which error expression can reach which return context (provider error anywhere; ctx.Err() only inside goroutines); the wait discipline that keeps dependants behind their producers (IsWait table, sticky channel flag, guards). " +
@@ -80,6 +91,10 @@ func init() {
 			ruleErrorFlow(c, "C07.1", false, true, false)
 			ruleIgnoredWait(c, "C07.3")
 			ruleContextThreaded(c, "C07.4")
+			ruleErrorCheckTemplates(c, "C07.3")
+			ruleConstQualifiersBound(c, "C07.5")
+			ruleIsContextType(c, "C07.5")
+			ruleParamsNamedFirst(c, "C07.5")
 			coRun(c, "C07.2", coCancellation)
 		},
 		explanation: "GS: the wait flavour per context (select with ctx.Done() vs plain receive) as a truth table over 'a context exists' and 'a handler exists'; the Wait result is kept exactly when the injector has an error result; errgroup.WithContext receives the context parameter and the 'context exists' predicate is the same at both sites; injectContextArg runs on every Build path. " +
@@ -94,6 +109,8 @@ func init() {
 			ruleErrorFlow(c, "C08.1", false, false, true)
 			ruleChainWrapped(c, "C08.2")
 			ruleContextThreaded(c, "C08.2")
+			ruleConstQualifiersBound(c, "C08.2")
+			ruleParamsNamedFirst(c, "C08.4")
 			coRun(c, "C08.3", coLeaks)
 		},
 		explanation: "GS: every return template that can sit at injector level is either preceded by eg.Wait or emitted only without goroutines; goroutine bodies contain only escapable waits (their handler is the constant goroutine-level one, every wait gets its ctx.Done() case whenever some argument is a context, and the errgroup is derived from that context so a failure wakes the waiters). CO: for each early return of the 36 injectors, the goroutines that can still be parked on a barrier only the returning thread would lower.",
